@@ -40,6 +40,8 @@
 #include "celeritas/em/model/SeltzerBergerModel.hh"
 #include "celeritas/em/params/AtomicRelaxationParams.hh"
 #include "celeritas/em/detail/Utils.hh"
+#include "celeritas/Constants.hh"
+#include "celeritas/Units.hh"
 #include "celeritas/em/interactor/AtomicRelaxation.hh"
 #include "corecel/data/CollectionBuilder.hh"
 #include <map>
@@ -96,6 +98,9 @@ struct AllocBox
 };
 
 class Oracle;
+std::string join_hex(std::vector<double> const& v);
+std::vector<double> mubrems_consts(Fixture& fx);
+std::vector<double> rayleigh_consts();
 
 //! the real XorwowRngEngine with a draw counter
 struct CountingXorwow
@@ -255,6 +260,49 @@ bool AllocBox::untouched() const
     auto all = store.ref().storage[AllItems<Secondary>{}];
     return std::memcmp(all.data(), snapshot.data(), snapshot.size()) == 0
            && alloc->get().size() == size0;
+}
+
+
+std::string join_hex(std::vector<double> const& v)
+{
+    std::string out;
+    for (double x : v)
+        out += (out.empty() ? "" : " ") + hexd(x);
+    return out;
+}
+
+//! what MuBremsDiffXsCalculator uses for the fixture's Cu element (same expressions)
+std::vector<double> mubrems_consts(Fixture& fx)
+{
+    fx.set_material("Cu");
+    auto const material = fx.material_track().make_material_view();
+    auto const element = material.make_element_view(ElementComponentId{0});
+    int z = element.atomic_number().unchecked_get();
+    double amass = value_as<units::AmuMass>(element.atomic_mass());
+    double d_n = 1.54 * std::pow(amass, 0.27);
+    double b = 202.4, bp = 446;
+    if (z != 1)
+    {
+        b = 183;
+        bp = 1429;
+        d_n = std::pow(d_n, 1 - 1.0 / z);
+    }
+    return {16 * constants::alpha_fine_structure * constants::na_avogadro,
+            constants::r_electron,
+            std::sqrt(constants::euler),
+            d_n,
+            1 / element.cbrt_z(),
+            static_cast<double>(z),
+            amass,
+            b,
+            bp};
+}
+
+//! `centimeter / (c_light h_planck)` and one MeV in native units (RayleighInteractor)
+std::vector<double> rayleigh_consts()
+{
+    return {units::centimeter / (constants::c_light * constants::h_planck),
+            native_value_from(MevEnergy{1})};
 }
 
 //! nothing was written past the slots the allocator handed out
@@ -452,6 +500,9 @@ class Oracle
         rng_states_ = std::make_unique<RngStore>(rng_params_->host_ref(), StreamId{0}, 1);
     }
     std::string run(std::vector<std::string> const& w);
+    std::vector<double> rayleigh_params();
+    std::string run_rayleigh(std::vector<std::string> const& w);
+    std::string run_coulomb(std::vector<std::string> const& w);
 
   private:
     using RngStore = CollectionStateStore<XorwowRngStateData, MemSpace::host>;
@@ -696,6 +747,127 @@ std::string Oracle::dispatch(std::string const& model, std::size_t cap, std::siz
     if (!box.tail_untouched())
         return "wrote-past-allocation";
     return show_interaction(r, box.reported_size(), rng.draws());
+}
+
+std::vector<double> Oracle::rayleigh_params()
+{
+    if (!ray_)
+        ray_ = std::make_unique<FxRay>();
+    auto const material = ray_->material_track().make_material_view();
+    std::vector<double> out;
+    for (int i = 0; i < 3; ++i)
+    {
+        ElementId el = material.element_id(ElementComponentId{static_cast<size_type>(i)});
+        auto const& p = ray_->model->host_ref().params[el];
+        for (auto const* v : {&p.a, &p.b, &p.n})
+            for (double x : *v)
+                out.push_back(x);
+    }
+    return out;
+}
+
+//! `rayleigh <el> E dx dy dz k1 k2 a(3) b(3) n(3) | script` : the real RayleighInteractor
+std::string Oracle::run_rayleigh(std::vector<std::string> const& w)
+{
+    std::size_t el = 0;
+    vecd d, script;
+    if (w.size() < 18 || w[17] != "|" || !parse_nat(w[1], &el) || el > 2
+        || !parse_all(w, 2, 17, &d) || !parse_all(w, 18, w.size(), &script))
+        return "bad-op";
+    auto params = this->rayleigh_params();
+    auto consts = rayleigh_consts();
+    bool same = dbl_bits(consts[0]) == dbl_bits(d[4]) && dbl_bits(consts[1]) == dbl_bits(d[5]);
+    for (std::size_t i = 0; i < 9; ++i)
+        same = same && dbl_bits(params[9 * el + i]) == dbl_bits(d[6 + i]);
+    if (!same)
+        return "bad-oracle";
+    if (!(d[0] > 0) || !std::isfinite(d[0]))
+        return "bad-op";
+    auto& f = *ray_;
+    f.set_inc_particle(pdg::gamma(), MevEnergy{d[0]});
+    Real3 dir{d[1], d[2], d[3]};
+    auto const material = f.material_track().make_material_view();
+    ElementId el_id = material.element_id(ElementComponentId{static_cast<size_type>(el)});
+    ScriptedEngine rng{script};
+    try
+    {
+        Interaction r = RayleighInteractor(f.model->host_ref(), f.particle_track(), dir, el_id)(rng);
+        return show_interaction(r, 0, rng.draws());
+    }
+    catch (ScriptExhausted const&)
+    {
+        return "script-exhausted";
+    }
+}
+
+//! pass 1: `wentzel <-|+> <ff> <a|b> E cut_e | script` → `wz <cosθ> <draws> <target mass>` (the
+//! real WentzelDistribution, built exactly as CoulombScatteringInteractor builds it);
+//! pass 2: `coulomb <-|+> <ff> <a|b> <draws> E cut_e dx dy dz cosθ m_target | script`: checks the
+//! recorded (cosθ, draws) against its own sample and runs the REAL interactor on the script
+std::string Oracle::run_coulomb(std::vector<std::string> const& w)
+{
+    bool const pass2 = w[0] == "coulomb";
+    std::size_t const nh = pass2 ? 5 : 4;
+    if (w.size() < nh + 1 || (w[1] != "-" && w[1] != "+") || w[2].size() != 1 || w[2][0] < '0'
+        || w[2][0] > '2' || (w[3] != "a" && w[3] != "b"))
+        return "bad-op";
+    std::size_t nd_given = 0;
+    if (pass2 && !parse_nat(w[4], &nd_given))
+        return "bad-op";
+    std::size_t bar = nh;
+    while (bar < w.size() && w[bar] != "|")
+        ++bar;
+    vecd d, script;
+    if (bar >= w.size() || bar - nh != (pass2 ? 7u : 2u) || !parse_all(w, nh, bar, &d)
+        || !parse_all(w, bar + 1, w.size(), &script))
+        return "bad-op";
+    if (!(d[0] > 0 && d[0] < 1e8) || !(d[1] > 0) || !std::isfinite(d[1]))
+        return "bad-op";
+    if (!coul_)
+        coul_ = std::make_unique<FxCoul>();
+    auto& f = *coul_;
+    f.set_inc_particle(w[1] == "-" ? pdg::electron() : pdg::positron(), MevEnergy{d[0]});
+    f.set_cutoffs(d[1], d[1], d[1]);
+    auto const material = f.material_track().make_material_view();
+    IsotopeView const isotope
+        = material.make_element_view(ElementComponentId{0})
+              .make_isotope_view(IsotopeComponentId{static_cast<size_type>(w[3][0] - 'a')});
+    auto const& wentzel = f.wentzel[static_cast<std::size_t>(w[2][0] - '0')]->host_ref();
+    auto const& shared = f.model->host_ref();
+    auto cutoffs = f.cutoff_params()->get(MaterialId{0});
+    double cos_theta = 0;
+    std::size_t nd = 0;
+    try
+    {
+        WentzelHelper helper(f.particle_track(), material, isotope.atomic_number(), wentzel,
+                             shared.ids, cutoffs.energy(shared.ids.electron));
+        WentzelDistribution sample_angle(wentzel, helper, f.particle_track(), isotope, ElementId{0},
+                                         helper.cos_thetamax_nuclear(), shared.cos_thetamax());
+        ScriptedEngine rng{script};
+        cos_theta = sample_angle(rng);
+        nd = rng.draws();
+    }
+    catch (ScriptExhausted const&)
+    {
+        return "script-exhausted";
+    }
+    double const mt = value_as<units::MevMass>(isotope.nuclear_mass());
+    if (!pass2)
+        return "wz " + hexd(cos_theta) + " " + std::to_string(nd) + " " + hexd(mt);
+    if (nd != nd_given || dbl_bits(cos_theta) != dbl_bits(d[5]) || dbl_bits(mt) != dbl_bits(d[6]))
+        return "bad-oracle";
+    Real3 dir{d[2], d[3], d[4]};
+    ScriptedEngine rng{script};
+    try
+    {
+        Interaction r = CoulombScatteringInteractor(shared, wentzel, f.particle_track(), dir,
+                                                    material, isotope, ElementId{0}, cutoffs)(rng);
+        return show_interaction(r, 0, rng.draws());
+    }
+    catch (ScriptExhausted const&)
+    {
+        return "script-exhausted";
+    }
 }
 
 std::string Oracle::run(std::vector<std::string> const& w)
@@ -1013,6 +1185,48 @@ int main(int argc, char** argv)
         {
             Real3 a{d[1], d[2], d[3]}, b{d[5], d[6], d[7]};
             std::cout << hv(calc_exiting_direction({d[0], a}, {d[4], b})) << "\n";
+        }
+        else if (op == "consts2" && w.size() == 1)
+        {
+            // oracle constants for the mubrems / rayleigh model ops (values the real code uses)
+            std::cout << vh::join_hex(vh::mubrems_consts(fx)) << " | "
+                      << vh::join_hex(vh::rayleigh_consts()) << " | "
+                      << vh::join_hex(oracle.rayleigh_params()) << "\n";
+        }
+        else if (op == "mubrems" && alloc_op(1, 14, &cap, &size, &d, &script) && unit_ok(d, 2))
+        {
+            auto own = vh::mubrems_consts(fx);
+            bool same = true;
+            for (std::size_t i = 0; i < 9; ++i)
+                same = same && vh::dbl_bits(own[i]) == vh::dbl_bits(d[5 + i]);
+            if (!same)
+            {
+                std::cout << "bad-oracle\n";
+                continue;
+            }
+            MuBremsstrahlungData data;
+            data.gamma = fx.gamma;
+            data.mu_minus = fx.mu_minus;
+            data.mu_plus = fx.mu_plus;
+            data.electron_mass = fx.emass;
+            fx.set_inc_particle(pdg::mu_minus(), MevEnergy{d[0]});
+            fx.set_cutoffs(d[1], d[1], d[1]);
+            Real3 dir{d[2], d[3], d[4]};
+            auto const material = fx.material_track().make_material_view();
+            std::cout << run_scripted(cap, size, script, [&](auto& alloc, auto& rng) {
+                MuBremsstrahlungInteractor interact(data, fx.particle_track(), dir,
+                                                    fx.cutoff_params()->get(MaterialId{0}), alloc,
+                                                    material, ElementComponentId{0});
+                return interact(rng);
+            }) << "\n";
+        }
+        else if (op == "wentzel" || op == "coulomb")
+        {
+            std::cout << oracle.run_coulomb(w) << "\n";
+        }
+        else if (op == "rayleigh")
+        {
+            std::cout << oracle.run_rayleigh(w) << "\n";
         }
         else if (op == "relax" || op == "xrelax")
         {
